@@ -4,6 +4,8 @@
 -/
 import Cog.Drv.OMapDrv
 import Cog.Drv.VirDrv
+import Cog.Drv.XformDrv
+import Cog.Drv.BuilderDrv
 import Cog.Drv.SchemaStore
 import Cog.Drv.SemDrv
 open Cog.Drv
@@ -13,6 +15,8 @@ def handle (line : String) : String :=
   match line.splitOn " " with
   | "omap" :: rest => omapLine (" ".intercalate rest)
   | "vir" :: rest => virLine (" ".intercalate rest)
+  | "xform" :: rest => xformLine (" ".intercalate rest)
+  | "fromast" :: rest => fromastLine (" ".intercalate rest)
   | _ => "bad-request"
 
 /-- verbs that need the driver's schema store (IO) -/
